@@ -326,3 +326,100 @@ impl<const W: u8> std::fmt::Debug for Zt<W> {
         write!(f, "Z")
     }
 }
+
+impl<const W: u8> std::hash::Hash for Tr<W> {
+    fn hash<H: std::hash::Hasher>(&self, h: &mut H) {
+        self.tag.hash(h)
+    }
+}
+impl<const W: u8> std::hash::Hash for Big<W> {
+    fn hash<H: std::hash::Hasher>(&self, h: &mut H) {
+        self.t.tag.hash(h)
+    }
+}
+impl<const W: u8> std::hash::Hash for Zt<W> {
+    fn hash<H: std::hash::Hasher>(&self, _h: &mut H) {}
+}
+
+/// element abstraction shared by the bumpalo world (W = 0) and the std mirror (W = 1)
+pub trait Elem: Sized + Clone + PartialEq + std::fmt::Debug + std::hash::Hash + 'static {
+    const WORLD: u8;
+    const TRACKED: bool;
+    const ZST: bool = false;
+    fn mk(id: u32, tag: u32) -> Self;
+    fn eid(&self) -> u32;
+    fn etag(&self) -> u32;
+    fn intact(&self) -> bool {
+        true
+    }
+}
+impl<const W: u8> Elem for Tr<W> {
+    const WORLD: u8 = W;
+    const TRACKED: bool = true;
+    fn mk(id: u32, tag: u32) -> Self {
+        Tr::new(id, tag)
+    }
+    fn eid(&self) -> u32 {
+        self.id
+    }
+    fn etag(&self) -> u32 {
+        self.tag
+    }
+}
+impl<const W: u8> Elem for Big<W> {
+    const WORLD: u8 = W;
+    const TRACKED: bool = true;
+    fn mk(id: u32, tag: u32) -> Self {
+        Big::new(id, tag)
+    }
+    fn eid(&self) -> u32 {
+        self.t.id
+    }
+    fn etag(&self) -> u32 {
+        self.t.tag
+    }
+    fn intact(&self) -> bool {
+        Big::intact(self)
+    }
+}
+impl<const W: u8> Elem for Zt<W> {
+    const WORLD: u8 = W;
+    const TRACKED: bool = false;
+    const ZST: bool = true;
+    fn mk(_id: u32, _tag: u32) -> Self {
+        Zt::new()
+    }
+    fn eid(&self) -> u32 {
+        0
+    }
+    fn etag(&self) -> u32 {
+        0
+    }
+}
+/// plain Copy elements: the same type serves both worlds
+impl Elem for u8 {
+    const WORLD: u8 = 1;
+    const TRACKED: bool = false;
+    fn mk(_id: u32, tag: u32) -> Self {
+        tag as u8
+    }
+    fn eid(&self) -> u32 {
+        0
+    }
+    fn etag(&self) -> u32 {
+        *self as u32
+    }
+}
+impl Elem for u32 {
+    const WORLD: u8 = 1;
+    const TRACKED: bool = false;
+    fn mk(_id: u32, tag: u32) -> Self {
+        tag
+    }
+    fn eid(&self) -> u32 {
+        0
+    }
+    fn etag(&self) -> u32 {
+        *self
+    }
+}
